@@ -65,8 +65,8 @@ theorem read_line (path : String) (s : St) :
 theorem exists_line (path : String) (s : St) :
     existsOp path s = .ok (varEvalString s s!"_h{s.varCounter}" false,
       { s with varCounter := s.varCounter + 1,
-               code := .assign (varName s s!"_h{s.varCounter}" false) (condAssign s!"[ -e \"{path}\" ]" "1" "0") :: s.code }) := by
-  simp [existsOp, bind, nextHelperVar, varAssignment, varEvaluation, Tr.get, addLine, Tr.modify, pure,
+               code := .assignTest (varName s s!"_h{s.varCounter}" false) (.exists_ path) "1" "0" :: s.code }) := by
+  simp [existsOp, bind, nextHelperVar, varAssignTest, varEvaluation, Tr.get, addLine, Tr.modify, pure,
     varEvalString, varName, inFunction]
 
 end Tsh.C17
